@@ -21,7 +21,48 @@ fn launches(tier: Tier, cmd: &str) -> usize {
 
 // Inputs built to produce several diagnostics whose relative order could depend on iteration order.
 pub fn multi_diagnostic_program(r: &mut Rng) -> String {
-    match r.below(10) {
+    let arm = r.below(13);
+    multi_diagnostic_program_arm(r, arm)
+}
+
+// The files that go through the CLI take the kinds of input in turn (launches are scarce).
+pub fn multi_diagnostic_program_cli(r: &mut Rng, idx: u64) -> String {
+    let _ = r.below(13);
+    multi_diagnostic_program_arm(r, idx % 13)
+}
+
+pub fn multi_diagnostic_program_arm(r: &mut Rng, arm: u64) -> String {
+    match arm {
+        10 | 11 => {
+            // several *distinct* unexpected symbols, some repeated (what a de-duplicating or
+            // grouping report would iterate over), between valid tokens and line breaks
+            let syms = ["$", "@", "%", "&", "~", "^", "|", "[", "]", "\"", "?", "!", "\u{d7}", "\u{2264}", "\u{2013}", "\u{201c}", "\u{201d}", "\u{b2}", "`", "\\"];
+            let k = 2 + r.usize(6);
+            let chosen: Vec<&str> = (0..k).map(|_| syms[r.usize(syms.len())]).collect();
+            let n = k + r.usize(8);
+            let mut s = String::new();
+            for i in 0..n {
+                s.push_str(["x", "1", "+", "(", ")", "=", "if", "é"][r.usize(8)]);
+                s.push_str([" ", "", "\n", " "][r.usize(4)]);
+                s.push_str(chosen[if i < k { i } else { r.usize(k) }]);
+                s.push_str([" ", "", "\n", "\r\n"][r.usize(4)]);
+            }
+            s
+        }
+        12 => {
+            // syntax errors reported "at the end of this line" on lines that end in blanks, tabs,
+            // a comment or CRLF, and at the end of a file without a final line break
+            let k = 1 + r.usize(4);
+            let mut s = String::new();
+            for i in 0..k {
+                s.push_str(["if 1 then 2", "x = (1 +", "y : int", "if true", "(a b", "f = (x : int) =>", "if 1 then 2 else", "z ="][r.usize(8)]);
+                s.push_str(["   ", "\t", " # note", "", " \u{a0}", "  \t "][r.usize(6)]);
+                if i + 1 < k || r.chance(2, 3) {
+                    s.push_str(["\n", "\r\n", "\r\n", "\n\n"][r.usize(4)]);
+                }
+            }
+            s
+        }
         0 | 1 | 2 => {
             // definition-order violations with several independent forward references
             let n = 3 + r.usize(6);
@@ -258,7 +299,7 @@ impl Prop for C13P {
             }
             "cli-files" => {
                 let mut r = Rng::for_case(ctx.seed, 1, idx);
-                let p = multi_diagnostic_program(&mut r);
+                let p = multi_diagnostic_program_cli(&mut r, idx);
                 check_file(ctx, &p, true, false);
             }
             _ => {
@@ -271,7 +312,7 @@ impl Prop for C13P {
     }
     fn describe(&self, _tier: Tier, seed: u64, section: &str, idx: u64) -> String {
         match section {
-            "cli-files" => multi_diagnostic_program(&mut Rng::for_case(seed, 1, idx)),
+            "cli-files" => multi_diagnostic_program_cli(&mut Rng::for_case(seed, 1, idx), idx),
             "in-process-files" => multi_diagnostic_program(&mut Rng::for_case(seed, 2, idx)),
             _ => String::new(),
         }
